@@ -662,6 +662,7 @@ async fn run_inner(cfg: &Cfg, out: &mut Outcome) {
                         let s = srv.as_mut().unwrap();
                         catch_unwind(AssertUnwindSafe(|| s.poll(&mut Context::from_waker(&w))))
                     };
+                    st.borrow_mut().stamp_poll_end();
                     absorb(&st, &sh);
                     match p {
                         Err(pn) => {
@@ -1168,7 +1169,8 @@ fn oracles(
     // read brackets from the mock
     let mut read_real: HashMap<usize, (Instant, Instant)> = HashMap::new();
     for r in s.recv.iter() {
-        read_real.insert(r.seq, (r.real_before, r.real_after));
+        // the timer is armed after the read returned and before the poll ended
+        read_real.insert(r.seq, (r.real_before, r.poll_end.unwrap_or_else(Instant::now)));
     }
     // ---------------- pass 1: lifecycles, with the harness's model of the tracked id set
     let mut life: BTreeMap<usize, Life> = BTreeMap::new();
